@@ -349,15 +349,20 @@ def riscv_loop_case(rng) -> dict[str, Any] | None:
     argregs = [Registers.A0, Registers.A1][:nargs]
     block = Block(arg_types=argregs)
 
-    def simple(vals: list[Any], into: list[Any]) -> Any:
+    pre_pool = [Registers.T0, Registers.T1, Registers.S1, Registers.S2, Registers.T2]
+    rng.shuffle(pre_pool)
+
+    def simple(vals: list[Any], into: list[Any], may_preassign: bool = False) -> Any:
         k = rng.choice(["li", "add", "add", "sub", "mul", "mv"])
+        # a register pre-assigned to one value only (never shared): the allocator has to keep everything else out of it
+        rd = pre_pool.pop() if may_preassign and pre_pool and rng.random() < 0.12 else U
         if k == "li" or not vals:
-            op = rv32.LiOp(rng.choice([1, 2, 3, 5, 7]), rd=U)
+            op = rv32.LiOp(rng.choice([1, 2, 3, 5, 7]), rd=rd)
         elif k == "mv":
-            op = riscv.MVOp(rng.choice(vals), rd=U)
+            op = riscv.MVOp(rng.choice(vals), rd=rd)
         else:
             cls = {"add": riscv.AddOp, "sub": riscv.SubOp, "mul": riscv.MulOp}[k]
-            op = cls(rng.choice(vals), rng.choice(vals), rd=U)
+            op = cls(rng.choice(vals), rng.choice(vals), rd=rd)
         into.append(op)
         return op.results[0]
 
@@ -366,19 +371,26 @@ def riscv_loop_case(rng) -> dict[str, Any] | None:
             if avail and rng.random() < 0.6:
                 return rng.choice(avail)
             return simple([], into)
-        lb, ub = bound(), bound()
-        step: Any = IntegerAttr(1, IntegerType(12, Signedness.SIGNED)) if rng.random() < 0.7 else bound()
         n = rng.choice([0, 1, 1, 2])
         inits: list[Any] = []
         for _ in range(n):
             # as produced by convert-scf-to-riscv-scf: the initial value of a carried variable is a dedicated copy that
-            # only the loop uses (the allocator puts it into the carried variable's register)
+            # only the loop uses (the allocator puts it into the carried variable's register); it may be hoisted above
+            # unrelated computations
             if avail and rng.random() < 0.6:
                 cp = riscv.MVOp(rng.choice(avail), rd=U)
                 into.append(cp)
                 inits.append(cp.rd)
             else:
                 inits.append(simple(avail, into))
+        between: list[Any] = []
+        if inits and rng.random() < 0.5:
+            for _ in range(rng.randint(1, 4)):
+                between.append(simple(avail + between, into))
+        pool2 = avail + between
+        lb = rng.choice(pool2) if pool2 and rng.random() < 0.6 else simple([], into)
+        ub = rng.choice(pool2) if pool2 and rng.random() < 0.6 else simple(pool2, into)
+        step: Any = IntegerAttr(1, IntegerType(12, Signedness.SIGNED)) if rng.random() < 0.7 else (rng.choice(pool2) if pool2 and rng.random() < 0.6 else simple([], into))
         body = Block(arg_types=[U] * (1 + n))
         bops: list[Any] = []
         bvals = list(avail) + list(body.args)
@@ -389,7 +401,9 @@ def riscv_loop_case(rng) -> dict[str, Any] | None:
                 bvals += res
                 defined += res
             else:
-                v = simple(bvals, bops)
+                if rng.random() < 0.1:
+                    bops.append(riscv.CommentOp("c"))          # an operation without memory-effect trait
+                v = simple(bvals, bops, may_preassign=True)
                 bvals.append(v)
                 defined.append(v)
         ys = []
